@@ -483,8 +483,10 @@ class MLIRLexer(Lexer[MLIRTokenKind]):
         return self._form_token(kind, start_pos)
 
     # Match a double-quoted string literal, allowing valid escape sequences (\n, \t, \\, \", and two hex digits).
+    # The loop is unrolled (plain* (escape plain*)*) so that no input can be matched in
+    # two ways: a nested quantifier here backtracks exponentially on unterminated literals.
     _unescaped_characters_regex = re.compile(
-        r'"(?:[^"\\\n\v\f]+|\\(?:["nt\\]|[0-9A-Fa-f]{2}))*"'
+        r'"[^"\\\n\v\f]*(?:\\(?:["nt\\]|[0-9A-Fa-f]{2})[^"\\\n\v\f]*)*"'
     )
 
     def _lex_string_literal(self, start_pos: Position) -> MLIRToken:
